@@ -29,6 +29,19 @@ registration order, not of map iteration. -/
 def typeNameFor (order : List String) (entryType : String → Option Nat) (goType : Nat) : Option String :=
   order.find? (fun n => entryType n == some goType)
 
+/-- Symbol numbers after decoding a JSON object, as a function of the document's CONTENT:
+the new names are numbered after the old ones, members taken in increasing name order
+(`Atype` names nothing, `zKeyOrder` stands for the strings it lists), a name keeps the first
+number it got. Written with `mergeSort` and `eraseDups`, not with the decoder's loop. -/
+def decodedSymbolOrder (table : List String) (members : List (String × List String)) : List String :=
+  let cands := (sortedListing members).flatMap fun (k, inner) =>
+    if k == "zKeyOrder" then inner else if k == "Atype" then [] else k :: inner
+  (table ++ cands).eraseDups
+
+/-- Interference freedom, as the `interf` channel states it: what a fresh interpreter
+computes for a program is what it computes in a process where nothing ran before. -/
+def sameAsAlone (alone afterHistory : String) : Bool := alone == afterHistory
+
 /-- Determinism itself, as the `det` channel states it: all runs of one program agree. -/
 def allRunsAgree (outcomes : List String) : Bool :=
   match outcomes with
